@@ -113,8 +113,12 @@ def run_notify(plan):
         eg = service.SimpleEventgroup(svc, id=1)
         eg.values = {1: b"a", 2: b"bc", 3: b"d", 4: b"ef", 5: b"g"}
         svc.register_eventgroup(eg)
-        return svc, eg
-    svc, eg = loop.run_until_complete(setup())
+        eg2 = service.SimpleEventgroup(svc, id=2)          # a second eventgroup of the same service: same socket, same counters
+        eg2.values = {6: b"x", 7: b"yz"}
+        svc.register_eventgroup(eg2)
+        return svc, eg, eg2
+    svc, eg, eg2 = loop.run_until_complete(setup())
+    subscribed2 = set()
     subscribed = set()
 
     def do(step):
@@ -127,6 +131,13 @@ def run_notify(plan):
             rec.emit(k="in", op="notify", dsts=[ep], per=len(eg.values))     # initial notification
             eg.subscribe(sdenv.EP[ep])
             subscribed.add(ep)
+        elif step[0] == "sub2":
+            rec.emit(k="in", op="notify", dsts=[step[1]], per=len(eg2.values))
+            eg2.subscribe(sdenv.EP[step[1]])
+            subscribed2.add(step[1])
+        elif step[0] == "notify2":
+            rec.emit(k="in", op="notify", dsts=sorted(subscribed2), per=len(step[1]))
+            eg2.notify_once(list(step[1]))
         elif step[0] == "sub_unsub":   # subscribes and leaves in the same instant: the initial notification is sent all the same
             ep = step[1]
             rec.emit(k="in", op="notify", dsts=[ep], per=len(eg.values))
@@ -189,6 +200,19 @@ def notify_traces(seed, count):
     return out
 
 
+def two_group_traces():
+    """one subscriber endpoint in two eventgroups of one service: its session ids count on, whichever group notifies"""
+    cfg = {"dsts": DSTS, "maxId": 65535}
+    out = []
+    for burn in (0, 65530):
+        for order in (0, 1):
+            plan = ([("burn", "e1", burn)] if burn else []) + [("sub", "e1"), ("sub2", "e1"), ("sub", "e2")]
+            rounds = [("notify", [1, 2]), ("notify2", [6]), ("notify2", [7, 6]), ("notify", [3]), ("sub2", "e2"), ("notify2", [6, 7]), ("notify", [1])]
+            plan += rounds if order == 0 else list(reversed(rounds))
+            out.append({"cfg": cfg, "ev": monpass.add_adv(run_notify(plan)), "sched": plan, "mode": "notify"})
+    return out
+
+
 def trace_consts():
     return {"Match": "<<>>", "Cfg": "[maxId |-> 65535] @@ CfgDefault", "Sw": "AllOff"}
 
@@ -201,7 +225,7 @@ def check(ctx):
     m1.holds("full 2 x 65535 cycle of one destination", "C08_quick.cfg", {"Q_": "W_"}, timeout=1200)
     a = sd_traces(ctx.seed, *ctx.pick((40, 150), (300, 400))) + crowd_traces()
     bad1, ms1 = judge(ctx, "Mon_C08", a, "send_sd", lambda tr: {"mode": "sd", "sched": tr["sched"], "trace": tr["ev"][-60:]})
-    n = notify_traces(ctx.seed, ctx.pick(40, 400))
+    n = notify_traces(ctx.seed, ctx.pick(40, 400)) + two_group_traces()
     bad2, ms2 = judge(ctx, "Mon_C08", n, "notifications", lambda tr: {"mode": "notify", "sched": tr["sched"], "trace": tr["ev"][-60:]})
     bad3 = ms3 = 0
     extra = []
